@@ -12,13 +12,13 @@ import ast
 import os
 
 from .lib import *
-from pyvc.bisim import Bisim, reference_module
+from pyvc.bisim import Bisim, reference_module, ABS_EXC, ABS_BASE_EXC
 
 PROP = "C20"
 MP = "bluesky.preprocessors"
 TRUSTED = ["abstract plans obey the generator protocol and do not yield while being closed",
-           "driver vocabulary: send(v), throw(Exception instance), close(), throw(GeneratorExit-subclass instance); first input send(None); "
-           "throwing a BaseException that is neither an Exception nor a GeneratorExit is outside the vocabulary",
+           "driver vocabulary: send(v), throw(Exception instance), throw(instance of a BaseException that is neither an Exception nor a GeneratorExit: "
+           "KeyboardInterrupt, asyncio.CancelledError ...), close(), throw(GeneratorExit-subclass instance); first input send(None)",
            "id() of live objects is injective (objects referenced by msgs_seen stay alive)"]
 NOT_DECIDED = "garbage-collection side effects; processors that raise"
 REF_FILE = "contracts/refs/c20.py"
@@ -26,7 +26,7 @@ REF = open(os.path.join(os.path.dirname(os.path.dirname(os.path.abspath(__file__
 
 
 def setup(I, name, cfg, **kw):
-    b = Bisim(I, name, replay="generators.script", cfg=dict(cfg, module=MP, ref_file=REF_FILE), **kw)
+    b = Bisim(I, name, replay="generators.script", cfg=dict(cfg, module=MP, ref_file=REF_FILE), throw_classes=[ABS_EXC, ABS_BASE_EXC], **kw)
     return b, reference_module(I.P, "verif_ref_c20", REF)
 
 
